@@ -495,6 +495,10 @@ def judge_mask(cc, res):
     if res.x is None or not res.x.flags & F_READ:
         viol.append(("missing-read:mask", "{k%d} selects the written elements but extra_reg() is not reported kRead [%r]" % (
             c.extra[1], res.x)))
+    if any(o["vsibReg"] for o in f["operands"]) and (res.x is None or not res.x.flags & F_WRITE):
+        # SDM VGATHER* / VSCATTER*: "the entire mask register will be set to zero by this instruction"
+        viol.append(("missing-write:mask", "gather / scatter instructions clear their mask register k%d, but extra_reg() is not "
+                     "reported kWrite [%r]" % (c.extra[1], res.x)))
     zeroing = bool(c.opts & X.OPT["z"])
     if not zeroing and f["k"] == "" and c.ops and c.ops[0][0] == "r" and c.ops[0][1] in ("xmm", "ymm", "zmm") and \
             f["operands"][0]["write"] and res.ops and not res.ops[0].flags & F_READ:
